@@ -274,15 +274,33 @@ def _line_body_of_concat(interp, whole, parts):
     # (pk ends in '\n': both sides are whole[:-1]; it does not: neither does whole, both sides are whole) --
     # ONE equation without a case distinction on the ending, which is what the string solvers get lost in
     guard = z3.And(whole == z3.Concat(*parts), z3.Length(last) > 0)
-    rhs = z3.Concat(*(list(parts[:-1]) + [_body_fn()(last)]))
+    pieces = list(parts[:-1]) + [_body_fn()(last)]
+    rhs = z3.Concat(*pieces)
     st._add(z3.Implies(guard, _body_fn()(whole) == rhs))
+    # a ONE-character string occurs in a concatenation iff it occurs in one of the pieces (valid for all strings):
+    # stated for '\n' and the body of the concatenation, it makes "no new-line in the body of a + b" a matter of
+    # propositional reasoning (is_line of a pending line joined with the first line of the next part)
+    st._add(z3.Contains(rhs, _nl()) == z3.Or(*[z3.Contains(p, _nl()) for p in pieces]))
     for ax in line_body_axioms(last):
         st._add(ax)
 
 
+def _skip_concat(interp, whole, parts):
+    """(law switched off) the concatenation is remembered as dealt with: a later activation does not go back to it"""
+    if len(parts) >= 2 and not z3.is_string_value(parts[-1]):
+        interp.st.ghost.setdefault(('__lb_concat__', whole.get_id(), parts[-1].get_id()), (whole, parts[-1]))
+
+
+def m_line_body_over_concat_off(interp, args, kwargs):
+    """spec function (returns True): from here on the law of `line_body_over_concat()` is NOT instantiated at the
+    concatenations that are made (until it is switched on again) -- fewer hypotheses where it is not needed"""
+    interp.st.ghost['__on_concat__'] = _skip_concat
+    return True
+
+
 def _activate_line_body(interp):
     st = interp.st
-    if st.ghost.get('__on_concat__') is None:
+    if st.ghost.get('__on_concat__') is not _line_body_of_concat:
         st.ghost['__on_concat__'] = _line_body_of_concat
         for whole, parts in list(st.ghost.get('__explicit_concats__', [])):
             _line_body_of_concat(interp, whole, parts)
